@@ -32,6 +32,7 @@ type Actor struct {
 }
 
 type Gen struct {
+	noCross   bool   // never propose crossed price bounds (export / re-import runs: DESIGN section 5.1 is C12's domain)
 	lastPanic string // message of the last panic recovered inside the generator's own store reads
 	r      *rand.Rand
 	e      *Env
@@ -892,7 +893,7 @@ func (g *Gen) genGov() []string {
 		switch g.pick(12) {
 		case 0, 1, 2:
 			mx, mn := g.boundPair()
-			if g.chance(0.12) {
+			if !g.noCross && g.chance(0.12) {
 				// crossed bounds: the validators are per key, so a minimum above the maximum is accepted; the end-blocker
 				// must still terminate (C03), the price statement (C11) does not apply to such a history any more
 				mx, mn = g.crossedPair()
@@ -917,7 +918,7 @@ func (g *Gen) genGov() []string {
 			}
 		case 3, 4, 5:
 			mx, mn := g.boundPair()
-			if g.chance(0.12) {
+			if !g.noCross && g.chance(0.12) {
 				mx, mn = g.crossedPair()
 				out = append(out, "max_hr", coinsTok(mx, false), "min_hr", coinsTok(mn, false))
 				np.MaxHourlyPrices, np.MinHourlyPrices = coinsSdk(mx), coinsSdk(mn)
